@@ -1,7 +1,7 @@
 #!/usr/bin/env python3-vt
 """C14 - a failed mutating call leaves no partial update.  Every public mutating operation is executed over the abstract
-sqlite3 model with ONE injected statement failure at a position the executor forks over (every write statement and
-every COMMIT, on every path - "all k" is literal).  At the end of the call: the failure must have been reported by an
+sqlite3 model with ONE injected statement failure at a position the executor forks over (every write statement,
+every COMMIT and - in separate runs - every read statement, on every path - "all k" is literal).  At the end of the call: the failure must have been reported by an
 exception, no transaction may be open, and no write may have taken effect outside a rolled-back transaction."""
 import sys, os
 sys.path.insert(0, os.path.dirname(os.path.abspath(__file__)))
@@ -11,6 +11,7 @@ from lsx import driver
 HOOKS = {'on_end': api_common.oracle_c14}
 common.register_models('abs_v2_fail', lambda eng: api_common.install_abstract_v2(eng, fail='one', rows_mode='one'))
 common.register_models('abs_v2_fail_any', lambda eng: api_common.install_abstract_v2(eng, fail='one', rows_mode='any'))
+common.register_models('abs_v2_failr', lambda eng: api_common.install_abstract_v2(eng, fail='one', rows_mode='one', fail_reads=True))
 try:
     import api_v1
     HAVE_V1 = True
@@ -24,17 +25,18 @@ def main():
     schemas = [6] if TIER == 'quick' else [0, 1, 3, 6]
     for op, name in sorted(api_common.MUTATORS_V2.items()):
         for sc in schemas:
-            for mdl in ('abs_v2_fail', 'abs_v2_fail_any'):
+            for mdl in ('abs_v2_fail', 'abs_v2_fail_any', 'abs_v2_failr'):
                 jobs.append(dict(harness='h_api_v2.cpp', ll=ll, entry='h_op', params={'op': op, 'schema': sc, 'wide': 0, 'count': 3}, models=[mdl], known=ck.known, must_reach=['call'],
                                  hooks=('c14', 'HOOKS'), replay='none', allow_throw='none', other_property_kinds=['undef', 'oob', 'ubsan', 'fpcast', 'null', 'overflow', 'uaf', 'shift', 'div0', 'unreachable', 'badfree', 'doublefree', 'terminate', 'trap'], eng_opts={'max_paths': 6000}, label=name, max_bugs=12))
     if HAVE_V1: jobs += api_v1.jobs_c14(ck)
     rs = run_jobs(jobs)
     ck.add_results(rs)
     if not ck.reach_summary().get('failure-checked'): ck.machinery.append('vacuity guard: no path with an injected failure reached the oracle')
+    if not ck.reach_summary().get('read-failure-checked'): ck.machinery.append('vacuity guard: no path with an injected read failure reached the oracle')
     ck.extra['bounds'] = {'operations': sorted(api_common.MUTATORS_V2.values()) + (api_v1.mutator_names() if HAVE_V1 else []),
-                          'faults': 'exactly one failing write statement or COMMIT per run, at every position on every path; error code SQLITE_CONSTRAINT (BUSY for COMMIT)',
+                          'faults': 'exactly one failing statement per run, at every position on every path: a write statement (SQLITE_CONSTRAINT), a COMMIT (SQLITE_BUSY, transaction stays open) or - separate runs - a SELECT / PRAGMA query failing on its first step (SQLITE_BUSY)',
                           'prior_state': 'arbitrary: every SELECT answers one row of arbitrary values (thorough: also 0..2 rows)',
-                          'outside': 'failures of read statements and of ROLLBACK itself; SQLite\'s statement-level atomicity is assumed (a failing statement has no effect)'}
+                          'outside': 'a read failing after it has delivered rows, failures of ROLLBACK itself, more than one failure per call; SQLite\'s statement-level atomicity is assumed (a failing statement has no effect)'}
     ck.assumptions = ['abstract sqlite3 model with transaction state; a write outside BEGIN..COMMIT takes effect immediately, writes inside are undone by ROLLBACK',
                       'a busy COMMIT leaves the transaction open (SQLite documentation)']
     ck.trusted = ['clang-14 lowering', 'lsx executor', 'lsx/models_sqlite.py', 'z3']
